@@ -1,5 +1,6 @@
 import Tau.Optimiser
 import Tau.Proofs.Solver
+import Tau.Proofs.Rewrite
 /-
   C01 — Optimisation never changes a verdict.
 
@@ -139,5 +140,23 @@ theorem flatten_or (E : RegexEngine) (K : IdentK) (d : Doc) (x y z : Expr) :
     solveG E K d (.bin (.bin x .or y) .or z) = solveG E K d (.group .or [x, y, z]) := by
   simp [solveG, orG]
   cases solveG E K d x <;> cases solveG E K d y <;> cases solveG E K d z <;> rfl
+
+end Tau.C01
+
+namespace Tau.C01
+open Tau
+
+/-- **rewrite is exact** for every tree, every identifier continuation and every document, under
+    the one assumption the engine itself makes about the regex crate (`StripLaw`: a stripped pattern
+    that still compiles matches the same strings in an unanchored search). When the stripped
+    pattern does not compile the repaired code keeps the original, which the model mirrors. -/
+theorem rewrite_sound (E : RegexEngine) (hL : StripLaw E) (K : IdentK) (d : Doc) (e : Expr) :
+    solveG E K d (rewrite E e) = solveG E K d e :=
+  rewrite_sound_aux E hL K e.size e (Nat.le_refl _) d
+
+/-- Verdict form, for rules optimised with the rewrite switch only (identifiers are rewritten one
+    by one, the condition itself holds no search). -/
+theorem rewrite_sound_closed (E : RegexEngine) (hL : StripLaw E) (d : Doc) (e : Expr) :
+    solveClosed E d (rewrite E e) = solveClosed E d e := rewrite_sound E hL closedK d e
 
 end Tau.C01
